@@ -1,4 +1,4 @@
-"""tools/det_threads.py [N]: determinism of the thread-interleaving and wide-register plans of C07 specifically (DESIGN §8.8).
+"""tools/det_threads.py [N] [C07|C10]: determinism of the thread-interleaving and wide-register plans specifically (DESIGN §8.8).
 Every plan with a `conc` or `wide` op among the first N run indices is executed in a forked child three times: plain, after 7 other
 runs in the same process, and in reverse order; trace digests must agree. Run it again under another PYTHONHASHSEED and compare the
 printed combined digest."""
@@ -9,7 +9,8 @@ sys.path.insert(0, os.path.dirname(os.path.dirname(os.path.abspath(__file__))))
 from concurrent.futures import ProcessPoolExecutor
 import multiprocessing as mp
 from simkit import rng, worker  # noqa: E402
-from engines import c07_clifford as eng  # noqa: E402
+PROP = sys.argv[2] if len(sys.argv) > 2 else 'C07'
+eng = worker.load_engine(PROP)
 
 
 def _one(args):
@@ -18,9 +19,9 @@ def _one(args):
     order = list(reversed(idxs)) if mode == 'rev' else idxs
     if mode == 'warm':
         for j in range(7):
-            eng.execute(eng.generate(rng.run_seed(99, 'C07', 'quick', j), j, 'quick'))
+            eng.execute(eng.generate(rng.run_seed(99, PROP, 'quick', j), j, 'quick'))
     for i in order:
-        out[i] = eng.execute(eng.generate(rng.run_seed(0, 'C07', 'quick', i), i, 'quick'))['digest']
+        out[i] = eng.execute(eng.generate(rng.run_seed(0, PROP, 'quick', i), i, 'quick'))['digest']
     return out
 
 
@@ -30,7 +31,7 @@ def main():
     N = int(sys.argv[1]) if len(sys.argv) > 1 else 3000
     sel = []
     for i in range(N):
-        p = eng.generate(rng.run_seed(0, 'C07', 'quick', i), i, 'quick')
+        p = eng.generate(rng.run_seed(0, PROP, 'quick', i), i, 'quick')
         if any(o['op'] in ('conc', 'wide') for o in p['ops']):
             sel.append(i)
     chunks = [sel[k::16] for k in range(16)]
